@@ -3,12 +3,16 @@ from harness import gen_disp
 
 MODEL = 'spatial'
 RULE = ('seeded random scenarios: 1-3 transforms (2D and 3D, default or explicit constructor values), 0-3 '
-        'listeners per event with arbitrary event->method mappings, 1-25 assignments of position/rotation/'
+        'listeners per event with arbitrary event->method mappings (half of the scenarios: class hierarchies '
+        'with inherited/overridden mappings and methods, listeners that raise / leave / toggle dispatching '
+        'from inside a callback), 1-25 assignments of position/rotation/'
         'scale (rotations from {-725,-360,-0.5,0,359.5,360,370,1080,...} in half-degree units, random int '
         'vectors), dispatch toggles, every field of every transform read back after every assignment.  '
         'Non-trivial: an assignment notified at least one listener; distinct by scenario hash.')
 ASSUMPTIONS = ['rotations are multiples of 1/2 degree (exactly representable floats): float `%` rounding is '
-               'not modelled', 'listeners are passive (their callbacks do not touch the transform)']
+               'not modelled', 'listener callbacks are scripted reactions: they may raise, add or remove '
+               'listeners and toggle dispatching of the transform they listen to; they do not assign its '
+               'properties']
 EVENTS = ['on_position_change', 'on_rotation_change', 'on_scale_change']
 ROTS = [-1450, -720, -1, 0, 719, 720, 740, 2160, 1, 361, -359, 100000, -100001]
 FIELDS = ['position', 'rotation', 'scale']
@@ -22,15 +26,26 @@ def generate(rng, tier):
     n = 300 if tier == 'quick' else 6000
     for _ in range(n):
         lines = []
-        ncls = rng.randint(1, 3)
-        for c in range(ncls):
-            names = rng.sample(EVENTS, rng.randint(0, 2))
-            kw = {e: rng.choice(['m0', 'm1']) for e in rng.sample(EVENTS, rng.randint(0 if names else 1, 2))}
-            lines.append('class %d bases=- names=%s kw=%s' % (
-                c, ','.join(names) or '-', ','.join(f'{k}:{v}' for k, v in kw.items()) or '-'))
-        nobj = rng.randint(0, 4)
-        for o in range(nobj):
-            lines.append(f'obj {o} class={rng.randrange(ncls)} hash={rng.randint(0, 3)}')
+        if rng.random() < 0.5:
+            ncls = rng.randint(1, 3)
+            for c in range(ncls):
+                names = rng.sample(EVENTS, rng.randint(0, 2))
+                kw = {e: rng.choice(['m0', 'm1']) for e in rng.sample(EVENTS, rng.randint(0 if names else 1, 2))}
+                lines.append('class %d bases=- names=%s kw=%s' % (
+                    c, ','.join(names) or '-', ','.join(f'{k}:{v}' for k, v in kw.items()) or '-'))
+            nobj = rng.randint(0, 4)
+            for o in range(nobj):
+                lines.append(f'obj {o} class={rng.randrange(ncls)} hash={rng.randint(0, 3)}')
+        else:
+            # listener class hierarchies (inherited / extended / overridden mappings, subclasses that
+            # redefine a callback method) and listeners that raise, leave or switch notification off
+            # from inside a callback
+            lines, objs, mapping_of = gen_disp.gen_universe(rng, max_classes=4, max_objs=4, mixins=False,
+                                                            evs=EVENTS)
+            nobj = len(objs)
+            if rng.random() < 0.7:
+                lines += gen_disp.gen_reactions(rng, objs, mapping_of, ['add', 'remove', 'enable'],
+                                                p=0.3, raise_p=0.6)
         dims = []
         for i in range(rng.randint(1, 3)):
             dim = rng.choice([2, 3])
@@ -72,99 +87,92 @@ def project(obs):
         [o for o in obs if o.split()[0] in ('res', 'hang', 'bad-hint')]
 
 
-def oracle(lines, obs):
-    """Statement of C20 over the implementation's observations (passive listeners):
-    a set while enabled -> exactly one callback per registered listener of the matching event, each
-    carrying the value a read returns right afterwards; reads of other fields/transforms unchanged."""
-    from harness import spec_disp
-    # per transform abstract state
-    classes = {}
-    objcls = {}
-    ts = []
-    vs = []
-    it = iter(obs)
-    pos = 0
-    obs = [o for o in obs if not o.startswith('events ')]
+class _Out(list):
+    """observation stream of several transforms: every line carries the transform's prefix"""
+    prefix = ''
 
-    def take(prefix):
-        nonlocal pos
-        out = []
-        while pos < len(obs) and obs[pos].startswith(prefix + ' cb '):
-            out.append(obs[pos].split())
-            pos += 1
-        return out
+    def append(self, x):
+        super().append(self.prefix + x)
+
+
+def oracle(lines, obs):
+    """Statement of C20 as an abstract interpreter (the dispatcher part is the statement of C03/C04 in
+    harness/spec_disp.py, one per transform): a set stores the value (2D rotation mod 360) and then
+    notifies - once each, with the stored value, following the implementation's resolution of the set
+    order - the listeners of the matching event; a listener that raises ends that notification and the
+    exception reaches the caller, the value stays stored and later assignments notify as before."""
+    from harness import spec_disp
+    decl = [ln for ln in lines if ln.split()[0] in ('class', 'obj', 'react')]
+    hints = [int(o.split()[2]) for o in obs if o.split()[1:2] == ['cb'] and o.split()[2] != 'None']
+    shared = spec_disp.Spec(decl, hints)
+    out = _Out()
+    ts = []
+
+    def guarded(fn):
+        try:
+            fn()
+            out.append('res ok')
+        except spec_disp.Raised as e:
+            out.append('res raised ' + e.name)
+        except spec_disp.BadHint:
+            out.append('res bad-hint')
     for ln in lines:
         t = ln.split()
-        if t[0] == 'class':
-            d = dict(x.split('=', 1) for x in t[2:])
-            m = {n: n for n in spec_disp.split_list(d['names'])}
-            m.update(p.split(':') for p in spec_disp.split_list(d['kw']))
-            classes[int(t[1])] = m
-        elif t[0] == 'obj':
-            objcls[int(t[1])] = int(t[2].split('=')[1])
-        elif t[0] == 'transform':
+        if t[0] == 'transform':
             dim = int(t[1])
             z, o = ('p0_0', 'p1_1') if dim == 2 else ('p0_0_0', 'p1_1_1')
             rot = t[3] if t[3] != '-' else ('0' if dim == 2 else 'p0_0_0')
+            d = spec_disp.Spec(decl, [])
+            d.hints, d.calls, d.out = shared.hints, shared.calls, out
+            if dim == 2 and rot.startswith('p'):
+                out.prefix = ''
+                out.append('res raised TypeError')
+                rot = '0'
+                ts.append({'dim': dim, 'position': z, 'rotation': rot, 'scale': o, 'd': d})
+                continue
             if dim == 2:
                 rot = str(int(rot) % 720)
             ts.append({'dim': dim, 'position': t[2] if t[2] != '-' else z, 'rotation': rot,
-                       'scale': t[4] if t[4] != '-' else o, 'reg': {}, 'enabled': True, 'queue': [],
-                       'known': set()})
+                       'scale': t[4] if t[4] != '-' else o, 'd': d})
         elif t[0] == 'top':
             i = int(t[1])
             T = ts[i]
-            pre = f't{i}'
-            op = t[2]
-            if op == 'read':
-                want = f'{pre} val {T[t[3]]}'
-                got = obs[pos] if pos < len(obs) else '<end>'
-                pos += 1
-                if got != want:
-                    return [{'sig': 'C20:wrong-stored-value', 'what': f'`{ln}`: required `{want}`, got `{got}`'}]
-                continue
-            expected = []      # list of (event, value) deliveries required now, in order
-
-            def deliver(ev, val):
-                return sorted((str(o), m[ev], val) for o, m in T['reg'].items() if ev in m)
-            if op == 'set':
+            out.prefix = f't{i} '
+            if t[2] == 'read':
+                out.append(f'val {T[t[3]]}')
+            elif t[2] == 'set':
                 f, v = t[3], t[4]
-                sv = str(int(v) % 720) if (f == 'rotation' and T['dim'] == 2) else v
-                T[f] = sv
-                ev = f'on_{f}_change'
-                if ev in T['known']:
-                    if T['enabled']:
-                        expected.append(deliver(ev, sv))
-                    else:
-                        T['queue'].append((ev, sv))
-            elif op == 'add':
-                T['reg'][int(t[3])] = classes[objcls[int(t[3])]]
-                T['known'].update(classes[objcls[int(t[3])]])
-            elif op == 'remove':
-                T['reg'].pop(int(t[3]), None)
-            elif op == 'enable':
-                T['enabled'] = bool(int(t[3]))
-                if T['enabled']:
-                    while T['queue']:
-                        ev, sv = T['queue'].pop(0)
-                        expected.append(deliver(ev, sv))
-            got = take(pre)
-            k = 0
-            for group in expected:
-                g = sorted((x[2], x[3].split('@')[0], x[4]) for x in got[k:k + len(group)])
-                if g != group:
-                    kind = 'notified-value-differs-from-stored' if sorted(x[:2] for x in g) == sorted(
-                        x[:2] for x in group) else 'wrong-listeners-notified'
-                    return [{'sig': f'C20:{kind}', 'what': f'`{ln}`: required callbacks {group}, got {g}'}]
-                k += len(group)
-            if k != len(got):
-                return [{'sig': 'C20:wrong-listeners-notified',
-                         'what': f'`{ln}`: unexpected extra callbacks {got[k:]}'}]
-            res = obs[pos] if pos < len(obs) else '<end>'
-            pos += 1
-            if res != f'{pre} res ok':
-                return [{'sig': 'C20:setter-raised', 'what': f'`{ln}`: got `{res}`'}]
-    return vs
+                if f == 'rotation' and T['dim'] == 2:
+                    if v.startswith('p'):
+                        out.append('res raised TypeError')
+                        continue
+                    v = str(int(v) % 720)
+                T[f] = v
+                guarded(lambda: T['d'].dispatch(f'on_{f}_change', v))
+            else:
+                guarded(lambda: T['d'].op(t[2:]))
+    e, a = project(list(out)), project(obs)
+    if e == a:
+        return []
+    k = next((n for n, (x, y) in enumerate(zip(e, a)) if x != y), min(len(e), len(a)))
+    want = e[k] if k < len(e) else '<end>'
+    got = a[k] if k < len(a) else '<end>'
+    w, g = want.split()[1:] if want[:1] == 't' else want.split(), got.split()[1:] if got[:1] == 't' else got.split()
+    if w[:1] == ['val'] and g[:1] == ['val']:
+        kind = 'wrong-stored-value'
+    elif got == 'hang':
+        kind = 'hang'
+    elif w[:1] == ['cb'] and g[:1] == ['cb'] and w[1] == g[1] and w[2] == g[2]:
+        kind = 'notified-value-differs-from-stored'
+    elif w[:1] == ['cb'] and g[:1] == ['cb'] and w[1] == g[1] and w[2].split('@')[0] == g[2].split('@')[0]:
+        kind = 'wrong-method-implementation'
+    elif w[:1] == ['cb'] or g[:1] == ['cb'] or want == 'res bad-hint' or w[:2] == ['res', 'bad-hint']:
+        kind = 'wrong-listeners-notified'
+    elif g[:2] == ['res', 'raised'] or w[:2] == ['res', 'raised']:
+        kind = 'setter-raised'
+    else:
+        kind = 'wrong-' + (w[0] if w else 'end')
+    return [{'sig': f'C20:{kind}', 'what': f'observation #{k}: required `{want}`, implementation gave `{got}`'}]
 
 
 def nontrivial(lines, obs):
